@@ -81,6 +81,9 @@ class ActionContext(abc.ABC):
         try:
             result = self.trigger_context.evaluate_expression(watch)
             variable_id, log_str = var_processor.process_variable(watch, result)
+            if variable_id.vid is None:
+                # we have collected the max number of variables, so there is no variable to reference
+                return WatchResult(source, watch, None, "variable limit reached"), {}, log_str
 
             return WatchResult(source, watch, variable_id), var_processor.var_lookup, log_str
         except BaseException as e:
